@@ -86,8 +86,8 @@ fn any_type(i: u8) -> &'static str {
 
 fn gen_item(r: &mut Reader) -> Item {
     // low tape values -> FUNCTION / PROGRAM, the simplest cross-file pair
-    let kind = [0u8, 8, 1, 2, 3, 4, 6, 7, 5, 9, 10, 11, 8]
-        [r.weighted(&[4, 3, 2, 2, 2, 3, 2, 2, 1, 1, 1, 1, 3])];
+    let kind = [0u8, 8, 1, 2, 3, 4, 6, 7, 5, 9, 10, 11, 12, 8]
+        [r.weighted(&[4, 3, 2, 2, 2, 3, 2, 2, 1, 1, 1, 1, 3, 3])];
     let nst = if kind == 8 || kind == 4 { 1 + r.pick(5) } else { 0 };
     Item {
         kind,
@@ -300,6 +300,19 @@ fn render_item(it: &Item, out: &mut String) {
                 "CLASS {c} IMPLEMENTS {}\n    METHOD PUBLIC Start\n    END_METHOD\nEND_CLASS\n",
                 pick_name(IFACES, it.r[0])
             ));
+        }
+        12 => {
+            // numeric boundary declarations / statements (see boundary.rs); the pool names
+            // TColor / TLevel / TPoint / AddOne / Main / gCount / gFlag / Conf are used there
+            // as well, so these items take part in the cross-file references and clashes
+            let case = super::boundary::BoundaryCase {
+                tpl: ((it.v as usize * 11 + it.t as usize) % super::boundary::N_TEMPLATES) as u8,
+                a: ((it.t2 as usize * 6 + it.r[0] as usize + 66 * (it.r[3] as usize % 2)) % 251) as u8,
+                b: ((it.n as usize * 6 + it.r[1] as usize + 36 * (it.r[2] as usize % 3)) % 251) as u8,
+                c: ((it.r[2] as usize * 6 + it.r[1] as usize) % 251) as u8,
+                ty: ((it.t2 as usize + it.n as usize) % 251) as u8,
+            };
+            out.push_str(&super::boundary::text(&case));
         }
         _ => {
             // a function whose name is a TYPE/FB pool name: cross-kind name clash
